@@ -284,7 +284,9 @@ def report_fails(ctx, fails, limit_per_key=1):
             key = f["key"]
         else:
             key = minres_key(f["spec"], f["kind"], f.get("extra"))
-        sig = json.dumps({k: key[k] for k in key if k not in ("fam", "detail")}, sort_keys=True)
+        # one report per structural signature AND predicate: a known finding on one predicate must not use up the slot of
+        # a different failing predicate of the same cell
+        sig = json.dumps({k: key[k] for k in key if k not in ("fam",)}, sort_keys=True)
         seen[sig] = seen.get(sig, 0) + 1
         if seen[sig] > limit_per_key:
             continue
@@ -438,7 +440,9 @@ def ciq_key(spec, kind):
     return {"check": "ciq", "call": spec["call"], "op": spec["op"], "fail": fail_class(kind), "detail": kind,
             "illcond": float(spec["kappa"]) >= 1e3, "batch": len(spec["batch"]), "lhs": bool(spec.get("lhs")),
             "inverse": bool(spec.get("inverse")), "vec": bool(spec.get("rhs_vec")), "fam": spec["fam"],
-            "rel": spec.get("rel"), "op_adds_batch": op_adds_batch(spec)}
+            "rel": spec.get("rel"), "op_adds_batch": op_adds_batch(spec), "precond": bool(spec.get("precond")),
+            "rhs0": spec.get("rhs0"), "ns": (None if spec.get("ns") is None else
+                                             ("lt" if spec["ns"] < spec["n"] else ("eq" if spec["ns"] == spec["n"] else "gt")))}
 
 
 def to_cols(x, B, n, t):
@@ -529,12 +533,19 @@ def run_ciq_one(spec):
                         tab_lit(c["shifts"].to(F64).reshape(Nq + 1, B)), tab_lit(c["weights"].to(F64).reshape(Nq, B)),
                         fl(1e-25), fl(1e-9), cols_lit(res.to(F64).reshape(B, rows, t)), tab_lit(iq))
             else:
-                ns = n
-                base = torch.eye(n, dtype=F64).expand(*batch, n, ns).clone()
+                ns = int(spec.get("ns", n))
+                if spec.get("base") == "orth":
+                    # generic base samples: random orthonormal rows (ns >= n) / columns (ns < n), the same for every batch member
+                    gb = torch.Generator().manual_seed(int(spec["vseed"]) + 17)
+                    q = S.rand_orth(max(n, ns), gb)
+                    base = (q[:n, :ns] if ns >= n else q[:n, :ns]).expand(*batch, n, ns).clone()
+                else:
+                    assert ns == n
+                    base = torch.eye(n, dtype=F64).expand(*batch, n, ns).clone()
                 with settings.ciq_samples(True), S.CiqRecorder() as rec, S.RandnPatch(base):
                     samples = op.zero_mean_mvn_samples(ns)
-                fails = P.sample_pred(spec, Kb, samples, tol, st["nq"])
-                if spec["model"] and len(rec.calls) == 1 and not fails:
+                fails = P.sample_pred(spec, Kb, samples, tol, st["nq"], base=base)
+                if spec["model"] and ns == n and spec.get("base") != "orth" and len(rec.calls) == 1 and not fails:
                     c = rec.calls[0]
                     Nq = c["weights"].shape[0]
                     Bp = ns * B
@@ -570,7 +581,8 @@ def run_ciq_cases(ctx, quick):
                           "direct_failed": bool(fl_), "kind": "ciq",
                           "sig": [spec["op"], spec["call"], spec["batch"], spec["t"], spec.get("lhs"), spec.get("inverse"),
                                   spec["n"], spec["fam"], spec.get("set_nq"), spec.get("set_tol"), spec.get("rhs_batch"),
-                                  bool(spec.get("rhs_vec")), spec.get("data_batch"), spec.get("lhs_batch")]})
+                                  bool(spec.get("rhs_vec")), spec.get("data_batch"), spec.get("lhs_batch"), spec.get("rhs0"),
+                                  spec.get("precond"), spec.get("ns")]})
     return cases, fails, cnt
 
 
